@@ -806,6 +806,12 @@ func (fc *funcContext) translateAssign(lhs, rhs ast.Expr, define bool) string {
 
 func (fc *funcContext) translateResults(results []ast.Expr) string {
 	tuple := fc.typeResolver.Substitute(fc.sig.Sig.Results()).(*types.Tuple)
+	convert := fc.translateImplicitConversion
+	if fc.HasDefer {
+		// Deferred calls run after the results have been evaluated and may still
+		// modify the array or struct variables the results were read from.
+		convert = fc.translateImplicitConversionWithCloning
+	}
 	switch tuple.Len() {
 	case 0:
 		return ""
@@ -814,7 +820,7 @@ func (fc *funcContext) translateResults(results []ast.Expr) string {
 		if results != nil {
 			result = results[0]
 		}
-		v := fc.translateImplicitConversion(result, tuple.At(0).Type())
+		v := convert(result, tuple.At(0).Type())
 		fc.delayedOutput = nil
 		return " " + v.String()
 	default:
@@ -846,7 +852,7 @@ func (fc *funcContext) translateResults(results []ast.Expr) string {
 			if results != nil {
 				result = results[i]
 			}
-			values[i] = fc.translateImplicitConversion(result, tuple.At(i).Type()).String()
+			values[i] = convert(result, tuple.At(i).Type()).String()
 		}
 		fc.delayedOutput = nil
 		return " [" + strings.Join(values, ", ") + "]"
